@@ -32,8 +32,29 @@ class InjectedRuntimeError(RuntimeError, InjectedError):
     pass
 
 
+class InjectedOverflowError(OverflowError, InjectedError):      # what math.exp / a float power out of range raises; util.py catches it around its own sum of squares
+    pass
+
+
+class InjectedFloatingPointError(FloatingPointError, InjectedError):
+    pass
+
+
+class InjectedTypeError(TypeError, InjectedError):
+    pass
+
+
+class InjectedIndexError(IndexError, InjectedError):
+    pass
+
+
+class InjectedKeyError(KeyError, InjectedError):
+    pass
+
+
 RAISE_KINDS = {"raise": InjectedError, "raise_linalg": InjectedLinAlgError, "raise_value": InjectedValueError, "raise_zerodiv": InjectedZeroDivisionError,
-               "raise_assert": InjectedAssertionError, "raise_runtime": InjectedRuntimeError}
+               "raise_assert": InjectedAssertionError, "raise_runtime": InjectedRuntimeError, "raise_overflow": InjectedOverflowError,
+               "raise_fpe": InjectedFloatingPointError, "raise_type": InjectedTypeError, "raise_index": InjectedIndexError, "raise_key": InjectedKeyError}
 
 
 def _rng(inst, salt):
